@@ -263,8 +263,10 @@ def case_terms(c, r):
                 den = 1.0
                 for ax in range(D):
                     den *= c["spv"][b][ax] ** der[ax]
-                t = ev_term(D, der, c["stride"], c["data"][b][0], ms)
-                out.append(f"{CLOSE[D]} tol (sc{D} {qc(den)} {t}) {nest(r['val'][key][b][0])}")
+                hs = " ".join(qc(v) for v in c["spv"][b])
+                t = (f"(bsd{D} (K:=QcF) {' '.join(map(str, der))} {' '.join(map(str, c['stride']))} {hs} {nest(c['data'][b][0])} "
+                     f"{' '.join(map(str, ms))})")
+                out.append(f"{CLOSE[D]} tol {t} {nest(r['val'][key][b][0])}")
         return out
     raise ValueError(k)
 
